@@ -163,7 +163,7 @@ PJoin(t, op, db) ==
       lrows == IF flavor = "innerunique" THEN DistinctRows(t.rows, <<>>) ELSE t.rows
       Match(lt, rt) ==
         \A i \in DOMAIN op.conds :
-          CoalesceF(EvalP(JoinCondP(Unparen(op.conds[i])), [cols |-> JoinRowFn(t.cols, lt, r.cols, rt), scope |-> EmptyVal, ph |-> EmptyVal])) = B(TRUE)
+          TruthNF(EvalP(JoinCondP(Unparen(op.conds[i])), [cols |-> JoinRowFn(t.cols, lt, r.cols, rt), scope |-> EmptyVal, ph |-> EmptyVal])) = B(TRUE)
       RECURSIVE ForLeft(_)
       ForLeft(i) ==
         IF i > Len(lrows) THEN <<>>
